@@ -153,10 +153,12 @@ func (db *DB) updateWriteTxnPoolLocked(numTables int) {
 }
 
 func (db *DB) registerTable(table TableMeta) error {
+	verifPoint("register.beforeLock", db.handleName)
 	db.mu.Lock()
 	defer db.mu.Unlock()
 
 	root := slices.Clone(*db.root.Load())
+	verifPoint("register.locked", db.handleName)
 
 	name := table.Name()
 	for _, t := range root {
@@ -213,11 +215,14 @@ func (db *DB) WriteTxn(tables ...TableMeta) WriteTxn {
 		txn.smus[i] = table.sortableMutex()
 	}
 
+	verifPoint("wtxn.beforeLock", db.handleName)
 	lockAt := time.Now()
 	txn.smus.Lock()
+	verifPoint("wtxn.afterLock", db.handleName)
 	acquiredAt := time.Now()
 
 	txn.oldRoot = db.root.Load()
+	verifPoint("wtxn.afterRootLoad", db.handleName)
 
 	// Clone the root. This new allocation will become the new root when
 	// we commit.
@@ -252,6 +257,7 @@ func (db *DB) WriteTxn(tables ...TableMeta) WriteTxn {
 		acquiredAt.Sub(lockAt),
 	)
 
+	verifPoint("wtxn.ready", db.handleName)
 	handle := &writeTxnHandle{txn, nil}
 	runtime.SetFinalizer(handle, txnFinalizer)
 	return handle
